@@ -234,8 +234,105 @@ def _storage_read():
                       note="number of storages, their ranges and the request symbolic; includes requests that straddle storages and run past the last one")
 
 
-replay = make_replay("hds")
-bounded = make_bounded("hds", "hds.small_scope")
+class StorageInitModel(Model):
+    """StorageStream.__init__(streams): `streams` is a list of (Storage, stream) in arbitrary order (struct-of-arrays over the
+    input order: IN_START/IN_END); `sorted(..., key=start)` is an assumed extern returning the start-ascending permutation."""
+
+    def __init__(self):
+        super().__init__()
+        import ast as _ast
+
+        self._ast = _ast
+        self.n = z3.Int("len(streams)")
+        self.IN_START, self.IN_END = z3.Function("in_start", I, I), z3.Function("in_end", I, I)
+        self.S_START, self.S_END = z3.Function("sorted_start", I, I), z3.Function("sorted_end", I, I)
+        self.global_calls["sorted"] = self.sorted_
+        self.global_calls["super"] = lambda eng, st, args, node: ObjV("super")
+        self.methods[("super", "__init__")] = self.super_init
+        self.globals["SECTOR_SIZE"] = IntV(z3.IntVal(512))
+        self.iters["streams"] = lambda eng, st, node: ("indexed", self.n, lambda st_, i: self.elem("in", i))
+        self.iters["sorted!"] = lambda eng, st, node: ("indexed", self.n, lambda st_, i: self.elem("sorted", i))
+        self._k = 0
+        self.size_arg = None
+        # assumed contract of sorted(key=start): ascending starts (and it is a permutation of the input: same multiset of ranges)
+        self.hyps = [self.n >= 1, z3.ForAll([T], z3.Implies(z3.And(0 <= T, T + 1 < self.n), self.S_START(T) <= self.S_START(T + 1)))]
+
+    def elem(self, which, i):
+        self._k += 1
+        p = f"storage!{self._k}"
+        self.fields[p + ".start"] = IntV((self.IN_START if which == "in" else self.S_START)(i))
+        self.fields[p + ".end"] = IntV((self.IN_END if which == "in" else self.S_END)(i))
+        return TupleV([ObjV(p), ObjV(f"stream!{self._k}")])
+
+    def sorted_(self, eng, st, args, node, key=None):
+        if not (isinstance(args[0], ObjV) and args[0].path == "streams"):
+            raise Unsupported("sorted() of something other than the `streams` argument")
+        if not isinstance(key, LambdaV) or self._ast.unparse(key.node.body) != f"{key.node.args.args[0].arg}[0].start":
+            raise Unsupported("sorted() key is not the storage start")
+        return ObjV("sorted!")
+
+    def super_init(self, eng, st, args, node):
+        self.size_arg = eng.as_int(args[0], st, node)
+        st.ghost["size_arg"] = self.size_arg
+        return NoneV()
+
+    def on_attr_store(self, eng, st, path, name, v, node):
+        if name == "_lookup":
+            return "skip"  # modelled as the ghost array LOOKUP (appends go through the contract of list.append below)
+
+
+def _storage_init():
+    def inv(eng, st):
+        m = eng.model
+        i = st.env["$i0"].e
+        size = st.env["size"].e
+        lk, ln = st.ghost["LOOKUP"], st.ghost["LOOKUPN"]
+        return z3.And(0 <= i, i <= m.n, ln == i, z3.ForAll([T], z3.Implies(z3.And(0 <= T, T < i), z3.Select(lk, T) == m.S_START(T))),
+                      z3.Implies(i > 0, size == m.S_END(i - 1)))
+
+    def post(eng, st, rv):
+        m = eng.model
+        streams = st.attrs.get("self.streams")
+        lk = st.ghost["LOOKUP"]
+        # SPEC (prl-xml.txt: storages are consecutive ranges; the reader stitches them in ascending start order):
+        return [("streams_sorted_by_start", z3.BoolVal(isinstance(streams, ObjV) and streams.path == "sorted!")),
+                ("lookup_is_sorted_starts", z3.And(st.ghost["LOOKUPN"] == m.n, z3.ForAll([T], z3.Implies(z3.And(0 <= T, T < m.n), z3.Select(lk, T) == m.S_START(T))))),
+                ("size_is_end_of_last_storage", st.ghost["size_arg"] == m.S_END(m.n - 1) * 512)]
+
+    def mk():
+        m = StorageInitModel()
+        m.fields["self._lookup"] = ObjV("self._lookup")
+
+        def append(eng, st, args, node):
+            st.ghost["LOOKUP"] = z3.Store(st.ghost["LOOKUP"], st.ghost["LOOKUPN"], eng.as_int(args[0], st, node))
+            st.ghost["LOOKUPN"] = st.ghost["LOOKUPN"] + 1
+            return NoneV()
+
+        m.methods[("self._lookup", "append")] = append
+        return m
+
+    return FnContract(FILE, "StorageStream.__init__", ["C10", "C14"], mk,
+                      params=lambda m: {"self": ObjV("self"), "streams": ObjV("streams")},
+                      requires=lambda m: m.hyps, post=post, ghost=lambda m: {"LOOKUP": z3.K(I, z3.IntVal(0)), "LOOKUPN": z3.IntVal(0)},
+                      loops={("For", 0): LoopSpec(inv, ghost_havoc={"LOOKUP": "array", "LOOKUPN": "int"})},
+                      note="establishes the class invariant used by StorageStream._read: streams sorted by start, _lookup[i] == start of the i-th, size == 512 * end of the last")
+
+
+_replay_hds = make_replay("hds")
+_replay_hdd = make_replay("hdd", n_specs=80)
+_bounded_hds = make_bounded("hds", "hds.small_scope")
+_bounded_hdd = make_bounded("hdd", "hdd.directories", quick_specs=40, thorough_specs=300)
+
+
+def replay(rep, ob_name, qs):
+    # StorageStream obligations are replayed on .hdd directories with several storages, everything else on single HDS images
+    return (_replay_hdd if "StorageStream" in ob_name else _replay_hds)(rep, ob_name, qs)
+
+
+def bounded(rep, pid, known):
+    _bounded_hds(rep, pid, known)
+    if pid in ("C06", "C10", "C08"):
+        _bounded_hdd(rep, pid, known)
 
 
 def trusted(pid):
@@ -244,4 +341,4 @@ def trusted(pid):
 
 
 def contracts(repo):
-    return [_iter_runs("functional"), _hds_read(), _iter_runs("termination"), _storage_read()]
+    return [_iter_runs("functional"), _hds_read(), _iter_runs("termination"), _storage_read(), _storage_init()]
